@@ -218,7 +218,7 @@ theorem ndb_slots_within_file (file : RpmDb.Bytes) (ss : List RpmDb.Ndb.Slot)
   split at h; · cases h
   split at h; · cases h
   split at h; · cases h
-  have := RpmDb.Ndb.slots_len file _ _ 32 [] ss h (by omega)
+  have := RpmDb.Ndb.slots_len file _ 32 [] ss h (by omega)
   simp only [List.length_nil] at this
   omega
 
